@@ -630,6 +630,12 @@ func genPoint(r rng, p *sdl.Program, holder *sdl.Type, k Knobs, field string) *s
 			pt.Kind = sdl.KPtrs
 		}
 	}
+	if r.p(0.015) {
+		// a fixed-size array with a wire tag: no injection point at all (nothing is ever a
+		// candidate: required fails the start, optional stays as it is)
+		pt.Target, pt.Kind, pt.Iface = "", sdl.KArr, r.IntN(p.NIfaces)
+		return pt
+	}
 	if r.p(0.05) {
 		// typed any / []any and selected by type: every registered component is a candidate
 		pt.Target, pt.Iface, pt.Kind = "", 0, sdl.KAny
